@@ -629,6 +629,43 @@ def run(ctx, crate):
             ctx.check(not trims, rule, "bar-untrimmed#%d" % k, w.name, c.loc(), "the rendered wide bar replaces the placeholder unmodified",
                       "the rendered wide bar passes through %s before it is inserted: blank background cells are cut off and the line no longer spans the terminal" % trims, cfg)
 
+    rule_wide_kind_per_key(ctx, crate)
+
+
+def rule_wide_kind_per_key(ctx, crate, rule="R-WIDE-KIND-PER-KEY"):
+    """"wide_bar makes the line exactly as wide as the terminal": the element that replaces a line's marker is the one its own key asked
+    for. `format_state` keeps one `Option<WideElement>` across the lines of a template, so the arm of `wide_bar` (`wide_msg`) must *store*
+    `Some(WideElement::Bar)` (`::Message`) unconditionally - by assignment, `Option::insert` or `Option::replace` - and not keep an
+    earlier line's element (`get_or_insert`: seed C13o, a `{wide_msg}` line above a `{wide_bar}` line draws no bar at all)."""
+    from .c11 import key_arms
+    cfg = crate.config
+    b = K.find_one(ctx, crate, rule, r"style::ProgressStyle::format_state")
+    if not b:
+        return
+    arms = key_arms(b)
+    n = 0
+    for key, V in (("wide_bar", "Bar"), ("wide_msg", "Message")):
+        allc = K.constructions(crate, "style::WideElement", V, bodies=[b])
+        if key not in arms or not allc:
+            continue  # counted by the floor below
+        reg = arms[key][1]
+        cons = [(i, j, st) for (_b, i, j, st) in allc if i in reg]
+        n += 1
+        if not cons:
+            continue  # the element is built outside the arm (a refactor this clause does not follow): no verdict
+        def is_optw(l):
+            return "Option<style::WideElement" in str(b.locals[l]["ty"])
+        stores = [st for i, j, st in b.assigns() if i in reg and st["rv"]["k"] == "agg" and st["rv"].get("adt", "").endswith("option::Option")
+                  and st["rv"].get("variant") == "Some" and is_optw(st["lhs"]["l"])]
+        stores += [c for c in b.calls(r"(std|core)::option::Option::<T>::(insert|replace)$") if c.bb in reg]
+        keeps = sorted({c.path for c in b.calls(r"(std|core)::option::Option::<T>::(get_or_insert|get_or_insert_with|or|or_else|xor)$") if c.bb in reg})
+        c0 = arms[key][0]
+        ctx.check(bool(stores) and not keeps, rule, "arm:%s" % key, b.name, c0.loc(),
+                  "`%s` stores Some(WideElement::%s) unconditionally for its line" % (key, V),
+                  "`%s` does not overwrite the wide element kept from an earlier template line%s: a `{wide_msg}` line above a `{wide_bar}` line "
+                  "(or the reverse) expands the later marker as the wrong element - no bar cells are drawn" % (key, (" (%s)" % ", ".join(keeps)) if keeps else ""), cfg)
+    ctx.floor(rule, n, 2, cfg, "wide arms of format_state")
+
 
 def rule_char_width_coherent(ctx, crate, rule="R-CHAR-WIDTH-COHERENT"):
     """format_bar divides the width by the *cached* `char_width`: the cache must be the cluster width of the table that is
